@@ -42,6 +42,7 @@ func main() {
 		shard := fs.String("shard", "0/1", "")
 		skip := fs.String("skip", "", "")
 		trace := fs.String("trace", "", "")
+		skipEntries := fs.String("skip-entries", "", "")
 		fs.Parse(os.Args[3:])
 		var si, sn int
 		fmt.Sscanf(*shard, "%d/%d", &si, &sn)
@@ -52,7 +53,11 @@ func main() {
 				sk = append(sk, v)
 			}
 		}
-		os.Exit(core.WorkerMain(os.Args[2], *tier, *seed, si, sn, sk, *trace))
+		var se []string
+		if *skipEntries != "" {
+			se = strings.Split(*skipEntries, "\x1f")
+		}
+		os.Exit(core.WorkerMain(os.Args[2], *tier, *seed, si, sn, sk, se, *trace))
 	case "replay":
 		fs := flag.NewFlagSet("replay", flag.ExitOnError)
 		times := fs.Int("times", 1, "")
